@@ -9,6 +9,7 @@ import (
 	"reservoir/metrics"
 	"reservoir/utils/bytesize"
 	"reservoir/utils/duration"
+	"reservoir/utils/verifhook"
 	"slices"
 	"sync"
 	"time"
@@ -112,6 +113,8 @@ func (j *cacheJanitor[MetadataT]) cleanExpiredEntries() {
 		slog.Info("Found expired cache entry for key", "key", key.Hex)
 		keysToRemove = append(keysToRemove, key)
 	}
+
+	verifhook.Point("janitor.afterScan")
 
 	for _, key := range keysToRemove {
 		slog.Info("Removing expired cache entry for key", "key", key.Hex)
